@@ -41,9 +41,13 @@ type wireResp struct {
 func overlayFor(id, harnessDir string, u Unit) (map[string]string, error) {
 	// the harness runtime and helper packages (never written under /repo)
 	ov := map[string]string{
-		filepath.Join(repoDir, "internal/verifrt/verifrt.go"):     filepath.Join(verifDir, "rt/verifrt/verifrt.go"),
-		filepath.Join(repoDir, "internal/verifrt/symfs/symfs.go"): filepath.Join(verifDir, "rt/symfs/symfs.go"),
-		filepath.Join(repoDir, "internal/verifrt/fake/fake.go"):   filepath.Join(verifDir, "rt/fake/fake.go"),
+		filepath.Join(repoDir, "internal/verifrt/verifrt.go"):         filepath.Join(verifDir, "rt/verifrt/verifrt.go"),
+		filepath.Join(repoDir, "internal/verifrt/symfs/symfs.go"):     filepath.Join(verifDir, "rt/symfs/symfs.go"),
+		filepath.Join(repoDir, "internal/verifrt/fake/fake.go"):       filepath.Join(verifDir, "rt/fake/fake.go"),
+		filepath.Join(repoDir, "internal/verifrt/vos/vos.go"):         filepath.Join(verifDir, "rt/vos/vos.go"),
+		filepath.Join(repoDir, "internal/verifrt/vos/osstubs.go"):     filepath.Join(verifDir, "rt/vos/osstubs.go"),
+		filepath.Join(repoDir, "internal/verifrt/tarstub/tarstub.go"): filepath.Join(verifDir, "rt/tarstub/tarstub.go"),
+		filepath.Join(repoDir, "internal/verifrt/fakeimg/fakeimg.go"): filepath.Join(verifDir, "rt/fakeimg/fakeimg.go"),
 	}
 	for _, f := range u.Files {
 		src := filepath.Join(harnessDir, f)
